@@ -20,7 +20,7 @@ func init() { registry["C07"] = propC07 }
 func propC07() *Property {
 	return &Property{
 		ID:          "C07",
-		Explanation: "Dispatcher coverage and crash obligations of the UI only. Decided: (R1) the keys documented in readme.md and in main's help text agree with each other, each is handled by ui.State.Update, and each case calls what the keymap names (j→MoveDown, k→MoveUp, g→MoveToCenter, h→Back, l→Forward, space/c/r/a→switchTo, o/p/b→openExternally; digits, ':', '.', Enter, Esc, Backspace are tested); (R2) every explicit panic in ui, feed, history and ansi that is reachable from Update / SetWidthHeight / Subcommand is discharged: the constants stored to State.mode are handled by view, ReplaceLastLine only receives text that went through ansi.SetLength, feed.Get is called only under Contains of the same offset on the same feed, switchTo only receives values whose dynamic type it handles — and no other panic exists there (a panic guarded by the outcome of parsing typed text has no static discharge); (R3) the results of the unguarded accessor feed.Current() are checked against nil before they are used as a receiver or handed to switchTo; (R4) Update returns before touching any state while the mode is loading. (R6) every value added to the history is a Page allocated by the adding function, through every phi edge: entries never share a page. (R7) every background load is delivered to the page it was started for (in-flight flag pairing; the instances of C08.R9). (R8 = C12.R7) a link list that is stored next to an error is empty whenever the error may be set, so a number typed by the user cannot select a link that was shown without a number. NOT decided: that after an arbitrary key history cursor, page and mode equal the keymap's prediction (refinement over unbounded histories), quiescence of background loads, and History.Current on an empty history (holds by an invariant relating mode and history length that is not structural).",
+		Explanation: "Dispatcher coverage and crash obligations of the UI only. Decided: (R1) the keys documented in readme.md and in main's help text agree with each other, each is handled by ui.State.Update, and each case calls what the keymap names (j→MoveDown, k→MoveUp, g→MoveToCenter, h→Back, l→Forward, space/c/r/a→switchTo, o/p/b→openExternally; digits, ':', '.', Enter, Esc, Backspace are tested); (R2) every explicit panic in ui, feed, history and ansi that is reachable from Update / SetWidthHeight / Subcommand is discharged: the constants stored to State.mode are handled by view, ReplaceLastLine only receives text that went through ansi.SetLength, feed.Get is called only under Contains of the same offset on the same feed, switchTo only receives values whose dynamic type it handles — and no other panic exists there (a panic guarded by the outcome of parsing typed text has no static discharge); (R3) the results of the unguarded accessor feed.Current() are checked against nil before they are used as a receiver or handed to switchTo; (R4) Update returns before touching any state while the mode is loading. (R6) every value added to the history is a Page allocated by the adding function, through every phi edge: entries never share a page. (R7) every background load is delivered to the page it was started for (in-flight flag pairing; the instances of C08.R9). (R8 = C12.R7) a link list that is stored next to an error is empty whenever the error may be set, so a number typed by the user cannot select a link that was shown without a number. (R12) every handler of a plain key in Update — the taken side of input == K, or the place where a table of handlers is indexed with the key — is dominated, as far as the mode is concerned, only by mode != loading, != command, != selection: the keymap is live in the opening and problem modes too. (R13 = C12.R9) the digit keys: exactly '0'..'9' are taken; on every path the mode becomes selection and the digit starts a fresh number outside selection mode, extends the number inside it. NOT decided: that after an arbitrary key history cursor, page and mode equal the keymap's prediction (refinement over unbounded histories), quiescence of background loads, and History.Current on an empty history (holds by an invariant relating mode and history length that is not structural).",
 		Assumptions: []string{"readme.md 'Keybindings' and main.help() are the documented keymap"},
 		Rules: []Rule{
 			{ID: "C07.R1", Title: "documented keys have the documented handlers", Floor: 12, Run: c07R1},
@@ -31,6 +31,8 @@ func propC07() *Property {
 			{ID: "C07.R6", Title: "every history entry is a page of its own", Floor: 1, Run: c07R6},
 			{ID: "C07.R7", Title: "a background load is delivered to the page it was started for (in-flight flag pairing; same instances as C08.R9)", Floor: 8, Run: c08R9},
 			{ID: "C07.R9", Title: "when the media hook ends it touches the input mode only if the UI is still showing `opening`", Floor: 2, Run: c07R9},
+			{ID: "C07.R13", Title: "the digit keys do what the keymap says in every mode: they start or extend a link number and switch to selection (same instances as C12.R9)", Floor: 3, Run: c12R9},
+			{ID: "C07.R12", Title: "the plain keymap is live in every mode but loading, command and selection: no key handler of Update is narrowed by another test of the mode", Floor: 10, Run: c07R12},
 			{ID: "C07.R11", Title: "`c` and `r` open the authors and recipients in document order: every fan-out goroutine fills the slot of its own iteration (same instances as C08.R5)", Floor: 40, Run: c08R5},
 			{ID: "C07.R10", Title: "loading more of a page continues where the last load stopped: collection and offset are kept together (same instances as C10.R7)", Floor: 2, Run: c10R7},
 			{ID: "C07.R8", Title: "a number typed by the user can only select a link that was shown with it: a link list that comes with an error is empty (same instances as C12.R7)", Floor: 3, Run: c12R7},
@@ -984,4 +986,130 @@ func c07R9(c *Ctx) {
 	if n == 0 {
 		c.bad(FuncName(fn)+"/hook-end", P.Pos(fn.Pos()), FuncName(fn), "the goroutine that waits for the media hook and resets the mode is not found")
 	}
+}
+
+// c07R12: every block of Update that handles a key of the plain keymap (the
+// taken side of `input == K`) is dominated, as far as the mode is concerned,
+// only by `mode != loading`, `mode != command` and `mode != selection` — the
+// three modes with a keymap of their own. A handler that sits under `mode ==
+// normal`, or behind any other exclusion, is dead in the opening and problem
+// modes, where the keymap says the key works.
+func c07R12(c *Ctx) {
+	P := c.P
+	upd := P.Method("servitor/ui", "State", "Update")
+	input := upd.Params[1]
+	modeF := P.Field("servitor/ui", "State", "mode")
+	own := map[int64]string{}
+	for _, n := range []string{"loading", "command", "selection"} {
+		k, ok := P.Package("servitor/ui").Types.Scope().Lookup(n).(*types.Const)
+		if !ok {
+			c.bad("servitor/ui/modes", "ui", "servitor/ui", "the mode constant "+n+" is not found")
+			return
+		}
+		v, _ := constant.Int64Val(k.Val())
+		own[v] = n
+	}
+	// what the mode facts in front of block h say about a handler there
+	modeNarrowing := func(h *ssa.BasicBlock) (why string, ownMode bool) {
+		for _, f := range factsOf(upd).At(h) {
+			fc, ok := f.Cmp()
+			if !ok {
+				continue
+			}
+			for _, side := range [][2]ssa.Value{{fc.X, fc.Y}, {fc.Y, fc.X}} {
+				ld, ok := side[0].(*ssa.UnOp)
+				if !ok || ld.Op != token.MUL {
+					continue
+				}
+				fa, ok := ld.X.(*ssa.FieldAddr)
+				if !ok || fieldOf(fa) != modeF {
+					continue
+				}
+				m, isK := constInt(side[1])
+				if !isK {
+					why = "a test of the mode against something that is not a constant"
+					continue
+				}
+				if fc.Op == token.NEQ && own[m] != "" {
+					continue
+				}
+				if fc.Op == token.EQL && own[m] != "" {
+					ownMode = true
+					continue
+				}
+				why = fmt.Sprintf("the handler is only reached when mode %s %d", fc.Op, m)
+			}
+		}
+		return why, ownMode
+	}
+	// a table of handlers indexed with the key: the place of the lookup stands for every key in the table
+	eachInstr(upd, func(b *ssa.BasicBlock, _ int, in ssa.Instruction) {
+		lk, ok := in.(*ssa.Lookup)
+		if !ok || unwrapLoad(lk.Index) != ssa.Value(input) {
+			return
+		}
+		u, ok := lk.X.(*ssa.UnOp)
+		if !ok {
+			return
+		}
+		g, ok := u.X.(*ssa.Global)
+		if !ok || !effectivelyConstGlobal(P, g) {
+			return
+		}
+		why, ownMode := modeNarrowing(b)
+		if ownMode {
+			return
+		}
+		for _, fn := range P.Funcs {
+			if fn.Synthetic == "" || fn.Name() != "init" || fn.Pkg != g.Pkg {
+				continue
+			}
+			eachInstr(fn, func(_ *ssa.BasicBlock, _ int, in2 ssa.Instruction) {
+				mu, ok := in2.(*ssa.MapUpdate)
+				if !ok {
+					return
+				}
+				stored := false
+				for _, r := range refs(mu.Map) {
+					if st, ok := r.(*ssa.Store); ok && st.Addr == ssa.Value(g) {
+						stored = true
+					}
+				}
+				k, isC := constInt(mu.Key)
+				if !stored || !isC {
+					return
+				}
+				name := fmt.Sprintf("%q", rune(k))
+				c.check(why == "", FuncName(upd)+"/key:"+name, P.InstrPos(lk), FuncName(upd), "looked up in the table of handlers in every mode that has no keymap of its own",
+					"key "+name+" is not handled in every mode that uses the plain keymap: "+why+" (in the other modes the key press is dropped)")
+			})
+		}
+	})
+	seen := map[*ssa.BasicBlock]bool{}
+	eachInstr(upd, func(b *ssa.BasicBlock, _ int, in ssa.Instruction) {
+		cmp, ok := in.(*ssa.BinOp)
+		if !ok || cmp.Op != token.EQL || unwrapLoad(cmp.X) != ssa.Value(input) {
+			return
+		}
+		k, isC := constInt(cmp.Y)
+		if !isC {
+			return
+		}
+		for _, r := range refs(cmp) {
+			iff, ok := r.(*ssa.If)
+			if !ok || seen[iff.Block().Succs[0]] {
+				continue
+			}
+			h := iff.Block().Succs[0]
+			seen[h] = true
+			name := fmt.Sprintf("%q", rune(k))
+			why, ownMode := modeNarrowing(h)
+			// the escape, backspace and enter keys belong to the modes themselves
+			if k == 27 || k == 127 || k == 8 || k == 13 || k == 10 || ownMode {
+				continue
+			}
+			c.check(why == "", FuncName(upd)+"/key:"+name, P.InstrPos(iff), FuncName(upd), "handled in every mode that has no keymap of its own",
+				"key "+name+" is not handled in every mode that uses the plain keymap: "+why+" (in the other modes the key press is dropped)")
+		}
+	})
 }
